@@ -169,12 +169,13 @@ let run line =
     Printf.sprintf "%s ; %s ; info=%s ; txid=%s" (hx b) (show_msg m) (show_info i) (hxo (relay_txid b))
   | ["rr6"; hop; link; peer; ifid; inner] ->
     let b = build_relay_reply (bx inner) (ni hop) (ip_of link) (ip_of peer) (bx ifid) in
-    Printf.sprintf "%s ; unwrap=%s ; txid=%s" (hx b) (show_unwrap (unwrap_relay_reply b)) (hxo (relay_txid b))
+    Printf.sprintf "%s ; unwrap=%s ; txid=%s ; m6=%s" (hx b) (show_unwrap (unwrap_relay_reply b)) (hxo (relay_txid b))
+      (show_msg (unwrap_relay_reply6 (depth_of b) b))
   | ["unw6"; p] ->
     let b = bx p in
     let (m, i) = unwrap_relay (depth_of b) b in
-    Printf.sprintf "unwrap=%s ; txid=%s ; %s ; info=%s" (show_unwrap (unwrap_relay_reply b)) (hxo (relay_txid b))
-      (show_msg m) (show_info i)
+    Printf.sprintf "unwrap=%s ; txid=%s ; %s ; info=%s ; m6=%s" (show_unwrap (unwrap_relay_reply b)) (hxo (relay_txid b))
+      (show_msg m) (show_info i) (show_msg (unwrap_relay_reply6 (depth_of b) b))
   | ["lt6"; pref; valid; p] -> hx (rewrite_v6_lifetimes variant (bx p) (n_of_decimal pref) (n_of_decimal valid))
   | ["duid6"; nd; p] ->
     let b = replace_server_duid (bx p) (bx nd) in
